@@ -16,9 +16,18 @@ CHECKS = {
    text="Same search with transfer-account, close-balance, close-account, bankruptcy and close-bank in the alphabet; on every transition delta(bank totals) must equal the sum of position deltas bit-exactly, except for counted sub-0.0001 dust on slot deactivation.",
    ref="6 C02"),
 
+ "C03": dict(cat="model_checking", technique="explicit-state BFS over user operation sequences through the real entrypoint with an exact wealth oracle; plus a depth-1 sweep from forged-share-value roots",
+   text="Every sequence (depth 4 quick / 6 thorough) of deposit, withdraw, withdraw-all, borrow, repay, repay-all, close-balance by a user on two banks at constant share values and prices, and every single operation from roots with share values 1, 1+ulp, 4/3, 0.37, 255.9 across 0/6/9/18-decimal and transfer-fee mints with amounts around share-value multiples, is executed; on each committed step tokens received plus exact position-value change may not exceed a few ulps.",
+   ref="6 C03"),
+ "C06": dict(cat="model_checking", technique="explicit-state BFS with a differential oracle (handler vs explicit-accrue-then-handler) through the real entrypoint; product sweep of the accrue instruction with exact conservation oracle",
+   text="(b) For every state reached by sequences up to depth 3 (quick) / 4 (thorough) incl. clock advances, every handler step on a bank with pending interest is re-executed after an explicit accrual of the banks it transacts in; outcome and end state must coincide. (a) 10k+ accrue instructions over curves x fees x totals x utilisations x share values x elapsed times must keep share values monotone, fees non-negative / zero when disabled, be idempotent, and conserve value within a derived allowance.",
+   ref="6 C06"),
  "C15": dict(cat="model_checking", technique="explicit-state search to the fixpoint of the pause machine driven through the real instructions, time-abstract state key, region grid plus bounded off-grid deviations",
    text="All reachable states of the emergency-pause machine (pause / admin unpause / permissionless unpause / propagate / time ticks on the 600 s region grid plus <=1 (quick) or <=2 (thorough) one-second deviations) are explored to the fixpoint through marginfi::entry; every pause edge and every state is checked against the 30-minute push, 60-minute horizon, three-per-window and 24-hour reset bounds, and a user deposit probe shows blocking ends without anyone acting.",
    ref="6 C15"),
+ "C17": dict(cat="model_checking", technique="explicit-state BFS through the real entrypoint from roots whose limits sit at boundary offsets from the current totals; exact post-state cap/utilisation oracle and an up-to-limit deposit probe in every state",
+   text="From states with accruing banks whose deposit/borrow limits were set (via the real limits-only instruction) to floor(total)+{-1,0,1,2,...} and {0,1,2,u64::MAX-1,u64::MAX}, and from a highly utilised bank, every sequence up to depth 2 (quick) / 3 (thorough) incl. a 1 s / 1 y clock advance is executed; after each committed step totals are compared exactly with the limits and each other; an up-to-limit deposit probe must never fail for capacity.",
+   ref="6 C17"),
  "C18": dict(cat="exploration", technique="bounded-exhaustive enumeration of interest-curve configurations (complete product over a small menu + shape-directed larger menus) against the real validator and rate calculator",
    text="Every 5-point configuration over the small menu (any padding placement) and every strictly-increasing-utilisation shape over a larger menu, x zero/hundred rates, plus a legacy-curve menu, is given to the real validate(); every accepted curve is evaluated at all breakpoints, +-1/2 ulp, segment interior points, 0, 1 and beyond, under 3 fee vectors, and must be defined, bounded, exact at its points and monotone.",
    ref="6 C18"),
